@@ -204,7 +204,8 @@ def build_metrics(rng, n, base=0):
     for j in range(k):
         name = ["alpha", "beta", "gamma"][j]
         pnames = gen.pick(rng, [[], ["sample_weight"], ["w", "extra"], ["sample_weight"]])
-        m = RecordingMetric(shared_name or name, (j + 1) * 10 ** 4, pnames)
+        # some metrics work in place on the arrays they receive: the other metrics of the dict must still see the real rows
+        m = RecordingMetric(shared_name or name, (j + 1) * 10 ** 4, pnames, scribble=bool(rng.random() < 0.3))
         params = {p: ((ids + (3 * j + q + 2) * 10 ** 6).tolist() if q == 0 else (np.arange(n) + 0.25 + j + q).tolist()) for q, p in enumerate(pnames)}
         metrics[name] = m
         if pnames:
@@ -380,6 +381,29 @@ def run_numeric(ctx, rng, MetricFrame, n, ns, nc, allcols, spayload, cpayload, s
                 else:
                     ctx.check(close(row[name], ref(name, rows), 1e-11, 1e-13), "numeric_overall_mismatch:" + name, cell=list(k),
                               got=repr(row[name]), expected=ref(name, rows), wit=wit)
+    # integer-valued metrics beyond 2**53 (sums of nanosecond timestamps, hashes, ids): a cell must hold the integer the metric returned
+    if n_empty == 0 and rng.random() < 0.3:
+        big_ids = [2 ** 60 + 2 * i + 1 for i in range(n)]  # odd: none of them is a float64
+
+        def max_id(y_true, y_pred):
+            return int(np.max(np.asarray(y_true, dtype=np.int64)))
+
+        def half(y_true, y_pred):
+            return 0.5
+        for form, mset in (("alone", {"max_id": max_id}), ("next_to_a_float_valued_metric", {"max_id": max_id, "half": half})):
+            mfi = MetricFrame(metrics=mset, y_true=big_ids, y_pred=p, sensitive_features=spayload, control_features=cpayload)
+            badc = []
+            for k_raw, v in mfi.by_group["max_id"].items():
+                rows = _lookup(part, norm_key(k_raw, nlev))
+                ctx.ev("big_integer_cells_compared")
+                try:
+                    same = rows is not None and int(v) == max(big_ids[i] for i in rows)
+                except (TypeError, ValueError, OverflowError):
+                    same = False
+                if not same:
+                    badc.append({"cell": repr(k_raw), "got": repr(v), "expected": None if rows is None else max(big_ids[i] for i in rows)})
+            ctx.check(not badc, "integer_metric_value_above_2**53_not_reported_exactly:" + form, cells=badc[:4], by_group_dtype=str(mfi.by_group["max_id"].dtype),
+                      wit={"n": n, "features": allcols})
 
 
 def run_adv_names(ctx, rng, MetricFrame):
